@@ -1,101 +1,137 @@
 ----------------------------- MODULE ReloaderMC -----------------------------
 (***************************************************************************)
 (* Leg A for C47: algorithm-level model of Reloader.apply under every      *)
-(* history of edits / additions / removals / environment changes / reload  *)
-(* outcomes within a budget.                                               *)
+(* history of edits / additions / removals / environment changes           *)
+(* (including the variable becoming unset) / reload outcomes within a      *)
+(* budget.                                                                 *)
 (*                                                                         *)
 (* State of the reloader as in the code: lastCfgHash, lastCfgDirsHash,     *)
 (* lastWatchedDirsHash (a hash is modelled by the hashed content itself,   *)
 (* i.e. sha256 is injective; before the first successful reload the value  *)
-(* is one no content hashes to, "nil"),                                    *)
-(* lastCfgDirFiles, forceReload; the file system: inputs and outputs.      *)
-(* Apply is one action (the statement is about applies that run while      *)
-(* the files are not changing); its reload outcome is a parameter:         *)
+(* is one no content hashes to, "nil"), lastCfgDirFiles (the output files  *)
+(* recorded for each config directory), forceReload; the file system:      *)
+(* inputs and outputs.  There are one or two config directories (Passes):  *)
+(* files a, b live in the first, c in the second; apply walks the          *)
+(* directories in order and the files of a directory in name order.        *)
+(*                                                                         *)
+(* Apply is one action (the statement is about applies that run while the  *)
+(* files are not changing); its reload outcome is a parameter:             *)
 (*   "ok"      the endpoint answers 200 to the first request               *)
 (*   "retryok" the first request fails, the retry inside the same apply    *)
 (*             succeeds                                                    *)
 (*   "fail"    every request fails until the apply gives up                *)
+(* An apply FAILS PART-WAY when tolerance for unset variables is off, the  *)
+(* variable is unset and a file that references it is reached: the config  *)
+(* file first (nothing is written at all), then directory by directory,    *)
+(* file by file - outputs of files before the failing one are already      *)
+(* written (and recorded), the directory's stale-output cleanup and        *)
+(* everything after it (later directories, hashes, reload) do not happen.  *)
 (* P is the property-level memory, A the algorithm summary (Reloader.tla), *)
 (* obs the last apply's observation.                                       *)
 (***************************************************************************)
 EXTENDS Reloader, TLC, Json, IOUtils, SequencesExt
 CONSTANTS Contents,      \* content ids (subset of {"p1","p2","e1","e2"})
-          DirNames,      \* file names that may exist in the config directory
+          TwoDirs,       \* BOOLEAN: a second config directory (file c) exists
           WatNames,      \* file names that may exist in the watched directory
-          EnvVals,       \* values of the environment variable
-          Budget,        \* edits + failing applies per history (model)
-          HistLen        \* leg B: histories up to this many operations
+          EnvVals,       \* values of the environment variable (Unset may be among them)
+          TolVals,       \* values of TolerateEnvVarExpansionErrors to explore
+          Budget,        \* changes + failing applies per history (model)
+          HistLen,       \* leg B: plain histories up to this many operations
+          FaultLen       \* leg B: fault histories (see below) up to this many operations
 
 Outcomes == {"ok", "retryok", "fail"}
 NoFile == ""
 NoOut == [c |-> "", e |-> ""]
+Passes == IF TwoDirs THEN << <<"a", "b">>, <<"c">> >> ELSE << <<"a", "b">> >>
+DirNames == UNION { LRan(Passes[i]) : i \in DOMAIN Passes }
 
-VARIABLES cfg, dir, wat, env,                       \* inputs and environment
+VARIABLES cfg, dir, wat, env, tol,                  \* inputs, environment, configuration
           outCfg, outDir,                           \* output files
           lastCfgHash, lastDirHash, lastWatHash,    \* hashes of the last successful reload
-          lastDirFiles, force,                      \* output files of the last apply; forceReload
+          lastDirFiles, force,                      \* recorded output files; forceReload
           P, A, obs, left, fresh
-vars == <<cfg, dir, wat, env, outCfg, outDir, lastCfgHash, lastDirHash, lastWatHash, lastDirFiles, force, P, A, obs, left, fresh>>
-inputVars == <<cfg, dir, wat, env>>
+vars == <<cfg, dir, wat, env, tol, outCfg, outDir, lastCfgHash, lastDirHash, lastWatHash, lastDirFiles, force, P, A, obs, left, fresh>>
+inputVars == <<cfg, dir, wat, env, tol>>
 reloaderVars == <<outCfg, outDir, lastCfgHash, lastDirHash, lastWatHash, lastDirFiles, force, P, A, obs>>
 
 Ins == [cfg |-> cfg,
         dir |-> SetToSeq({ [n |-> n, c |-> dir[n]] : n \in { m \in DirNames : dir[m] # NoFile } }),
         wat |-> SetToSeq({ [n |-> n, c |-> wat[n]] : n \in { m \in WatNames : wat[m] # NoFile } })]
-Outs == [cfg |-> outCfg,
-         dir |-> SetToSeq({ [n |-> n, c |-> outDir[n].c, e |-> outDir[n].e] : n \in { m \in DirNames : outDir[m] # NoOut } })]
+OutsOf(oc, od) == [cfg |-> oc,
+                   dir |-> SetToSeq({ [n |-> n, c |-> od[n].c, e |-> od[n].e] : n \in { m \in DirNames : od[m] # NoOut } })]
+Outs == OutsOf(outCfg, outDir)
 
 Init == /\ cfg \in Contents /\ dir = [n \in DirNames |-> NoFile] /\ wat = [n \in WatNames |-> NoFile]
-        /\ env \in EnvVals
+        /\ env \in EnvVals \ {Unset} /\ tol \in TolVals
         /\ outCfg = NoOut /\ outDir = [n \in DirNames |-> NoOut]
         /\ lastCfgHash = "nil" /\ lastDirHash = [n \in DirNames |-> "nil"] /\ lastWatHash = [n \in WatNames |-> "nil"]
-        /\ lastDirFiles = {"<nil>"} /\ force = FALSE
-        /\ P = PInit /\ A = AInit /\ obs = [calls |-> 0, oks |-> 0] /\ left = Budget /\ fresh = FALSE
+        /\ lastDirFiles = {} /\ force = FALSE
+        /\ P = PInit /\ A = AInit /\ obs = [calls |-> 0, oks |-> 0, err |-> ""] /\ left = Budget /\ fresh = FALSE
 
 (* ---- the environment of the reloader ---- *)
-EditCfg(c) == /\ left > 0 /\ c # cfg /\ cfg' = c /\ UNCHANGED <<dir, wat, env>>
-SetDir(n, c) == /\ left > 0 /\ c # dir[n] /\ dir' = [dir EXCEPT ![n] = c] /\ UNCHANGED <<cfg, wat, env>>   \* add, edit, remove (c = NoFile)
-SetWat(n, c) == /\ left > 0 /\ c # wat[n] /\ wat' = [wat EXCEPT ![n] = c] /\ UNCHANGED <<cfg, dir, env>>
-SetEnv(v) == /\ left > 0 /\ v # env /\ env' = v /\ UNCHANGED <<cfg, dir, wat>>
-Change == /\ \/ \E c \in Contents : EditCfg(c)
+EditCfg(c) == /\ c # cfg /\ cfg' = c /\ UNCHANGED <<dir, wat, env>>
+SetDir(n, c) == /\ c # dir[n] /\ dir' = [dir EXCEPT ![n] = c] /\ UNCHANGED <<cfg, wat, env>>   \* add, edit, remove (c = NoFile)
+SetWat(n, c) == /\ c # wat[n] /\ wat' = [wat EXCEPT ![n] = c] /\ UNCHANGED <<cfg, dir, env>>
+SetEnv(v) == /\ v # env /\ env' = v /\ UNCHANGED <<cfg, dir, wat>>                              \* v = Unset: the variable disappears
+Change == /\ left > 0
+          /\ \/ \E c \in Contents : EditCfg(c)
              \/ \E n \in DirNames, c \in Contents \cup {NoFile} : SetDir(n, c)
              \/ \E n \in WatNames, c \in Contents \cup {NoFile} : SetWat(n, c)
              \/ \E v \in EnvVals : SetEnv(v)
           /\ left' = left - 1 /\ fresh' = FALSE
-          /\ UNCHANGED reloaderVars
+          /\ UNCHANGED <<tol>> /\ UNCHANGED reloaderVars
 
 (* ---- Reloader.apply ---- *)
-Expand(c) == [c |-> c, e |-> EnvOf(c, env)]                       \* normalize(): expandEnv
+Expand(c) == [c |-> c, e |-> EnvOf(c, env)]                       \* normalize(): expandEnv (tolerated: left as is)
+Fails(c) == ~tol /\ Undefined(c, env)                             \* expandEnv returns an error
+
+(* one file of a directory pass; st = [out, written, ok] *)
+FileStep(st, n) ==
+    IF ~st.ok \/ dir[n] = NoFile THEN st
+    ELSE IF Fails(dir[n]) THEN [st EXCEPT !.ok = FALSE]
+    ELSE [st EXCEPT !.out[n] = Expand(dir[n]), !.written = @ \cup {n}]
+(* one config directory; st = [out, last, ok].  A completed pass removes the recorded outputs whose   *)
+(* input is gone and records this pass's files; an aborted pass keeps the old record and adds the     *)
+(* outputs it did write (normalizeDirFile records an output as soon as it is written).                *)
+PassStep(st, names) ==
+    IF ~st.ok THEN st
+    ELSE LET f == FoldLeft(FileStep, [out |-> st.out, written |-> {}, ok |-> TRUE], names)
+             mine == LRan(names)
+             now == { n \in mine : dir[n] # NoFile }
+         IN IF ~f.ok
+              THEN [out |-> f.out, last |-> st.last \cup f.written, ok |-> FALSE]
+              ELSE [out |-> [n \in DOMAIN f.out |-> IF n \in mine /\ n \in st.last /\ n \notin now THEN NoOut ELSE f.out[n]],
+                    last |-> (st.last \ mine) \cup now, ok |-> TRUE]
+
 Apply(outcome) ==
     LET cfgHash == cfg
         dirHash == dir
         watHash == wat
-        nowFiles == { n \in DirNames : dir[n] # NoFile }
-        (* normalize every present file; remove outputs recorded by the previous apply whose input is gone *)
-        newOutDir == [n \in DirNames |->
-                        IF dir[n] # NoFile THEN Expand(dir[n])
-                        ELSE IF n \in lastDirFiles THEN NoOut
-                        ELSE outDir[n]]
+        r == FoldLeft(PassStep, [out |-> outDir, last |-> lastDirFiles, ok |-> TRUE], Passes)
         dirsChanged == lastDirHash # dirHash
         trigger == force \/ dirsChanged \/ lastCfgHash # cfgHash \/ lastWatHash # watHash
+        failed == Fails(cfg) \/ ~r.ok
     IN
     /\ outcome = "fail" => left > 0
     /\ left' = IF outcome = "fail" THEN left - 1 ELSE left
-    /\ outCfg' = Expand(cfg)
-    /\ outDir' = newOutDir
-    /\ lastDirFiles' = nowFiles
-    /\ IF ~trigger
-         THEN /\ obs' = [calls |-> 0, oks |-> 0]
+    /\ IF Fails(cfg)
+         THEN UNCHANGED <<outCfg, outDir, lastDirFiles>>
+         ELSE outCfg' = Expand(cfg) /\ outDir' = r.out /\ lastDirFiles' = r.last
+    /\ IF failed
+         THEN /\ obs' = [calls |-> 0, oks |-> 0, err |-> "expand"]
+              /\ UNCHANGED <<lastCfgHash, lastDirHash, lastWatHash, force>>
+       ELSE IF ~trigger
+         THEN /\ obs' = [calls |-> 0, oks |-> 0, err |-> ""]
               /\ UNCHANGED <<lastCfgHash, lastDirHash, lastWatHash, force>>
        ELSE IF outcome = "fail"
-         THEN /\ obs' = [calls |-> 1, oks |-> 0]
+         THEN /\ obs' = [calls |-> 1, oks |-> 0, err |-> ""]
               /\ force' = TRUE
               /\ UNCHANGED <<lastCfgHash, lastDirHash, lastWatHash>>
-       ELSE /\ obs' = [calls |-> IF outcome = "retryok" THEN 2 ELSE 1, oks |-> 1]
+       ELSE /\ obs' = [calls |-> IF outcome = "retryok" THEN 2 ELSE 1, oks |-> 1, err |-> ""]
             /\ force' = FALSE
             /\ lastCfgHash' = cfgHash /\ lastDirHash' = dirHash /\ lastWatHash' = watHash
-    /\ P' = PNext(P, Snapshot(Ins), env, obs'.calls, obs'.oks)
-    /\ A' = ANext(A, Snapshot(Ins), obs'.calls, obs'.oks)
+    /\ P' = PNext(P, Snapshot(Ins), env, obs'.err, obs'.calls, obs'.oks)
+    /\ A' = ANext(A, Snapshot(Ins), obs'.err, obs'.calls, obs'.oks)
     /\ fresh' = TRUE
     /\ UNCHANGED inputVars
 
@@ -104,43 +140,76 @@ Next == Change \/ \E o \in Outcomes : Apply(o)
 Spec == Init /\ [][Next]_vars /\ WF_vars(ApplyOK)
 
 (* ---- C47 on the algorithm ---- *)
-ObsRecord == [calls |-> obs.calls, oks |-> obs.oks, err |-> "", outs |-> Outs, atok |-> Outs]
-(* (1) outputs after an apply that reloaded successfully or had no reason to reload *)
-OutputsFollowInputs == (fresh /\ (obs.oks >= 1 \/ obs.calls = 0)) => ObservedOut(Outs) = ExpectedOut(Ins, env)
-(* (2),(3) as an action property: the clauses the trace spec judges hold for every apply of the model *)
-AppliesSatisfyProperty == [][fresh' => (LET o == [calls |-> obs'.calls, oks |-> obs'.oks, err |-> "",
+(* (1) the eventual clause at every quiescent point: after an apply that completed and either reloaded *)
+(* successfully or had no reason to reload                                                             *)
+OutputsFollowInputs == (fresh /\ obs.err = "" /\ (obs.oks >= 1 \/ obs.calls = 0)) => OutputClauses(Ins, env, Outs, "") = {}
+(* (1),(2),(3) as an action property: the clauses the trace spec judges hold for every apply of the model *)
+AppliesSatisfyProperty == [][fresh' => (LET o == [calls |-> obs'.calls, oks |-> obs'.oks, err |-> obs'.err,
                                                  outs |-> Outs', atok |-> Outs']
-                                       IN ApplyClauses(P, Ins, env, o) = {})]_vars
+                                       IN ApplyClauses(P, Ins, env, tol, o) = {})]_vars
 (* the summary used for model conformance in the trace spec agrees with the detailed model *)
-SummaryAgrees == [][fresh' => ((obs'.calls > 0) = ATrigger(A, Snapshot(Ins)))]_vars
-(* eventual form: once nothing changes any more and reloads succeed, the outputs equal the inputs, the *)
-(* reloaded content is the current content, and no further reload is requested                        *)
-Synced == /\ ObservedOut(Outs) = ExpectedOut(Ins, env)
+SummaryAgrees == [][(fresh' /\ obs'.err = "") => ((obs'.calls > 0) = ATrigger(A, Snapshot(Ins)))]_vars
+(* an apply fails exactly under the fault the property allows *)
+FailsOnlyUnderFault == [][fresh' => ((obs'.err # "") = MayFail(Ins, env, tol))]_vars
+(* eventual form: once nothing changes any more, the fault (if any) is repaired and reloads succeed, the  *)
+(* outputs equal the inputs, the reloaded content is the current content, no further reload is requested *)
+Synced == /\ OutputClauses(Ins, env, Outs, "") = {}
           /\ P.hadOK /\ P.lastOK = Snapshot(Ins) /\ ~P.pendingFail
-EventuallySynced == <>[]Synced
-NoReloadOnceSynced == [][(Synced /\ fresh') => obs'.calls = 0]_vars
+EventuallySynced == <>[](MayFail(Ins, env, tol) \/ Synced)
+NoReloadOnceSynced == [][(Synced /\ fresh' /\ obs'.err = "") => obs'.calls = 0]_vars
 
 (* ---- leg B: histories for the real Reloader ---- *)
-(* All operation sequences of length <= HistLen that end with an apply and contain no no-op change *)
-(* (edit to the same content, removal of a missing file, same environment value).                  *)
 Op(o, f, c) == [op |-> o, f |-> f, c |-> c]
+(* (a) plain histories: all operation sequences of length <= HistLen over the first directory, the    *)
+(* watched directory, the set values of the variable and all reload outcomes, that end with an apply   *)
+(* and contain no no-op change.                                                                        *)
+PlainNames == {"a", "b"}
 HInit == [cfg |-> CHOOSE c \in Contents : TRUE, dir |-> [n \in DirNames |-> NoFile], wat |-> [n \in WatNames |-> NoFile],
-          env |-> CHOOSE v \in EnvVals : TRUE]
+          env |-> CHOOSE v \in EnvVals \ {Unset} : TRUE]
 HChanges(s) ==
     { <<Op("edit", "cfg", c), [s EXCEPT !.cfg = c]>> : c \in Contents \ {s.cfg} }
     \cup UNION { { <<Op(IF c = NoFile THEN "remove" ELSE IF s.dir[n] = NoFile THEN "add" ELSE "edit", n, c), [s EXCEPT !.dir[n] = c]>>
-                    : c \in (Contents \cup {NoFile}) \ {s.dir[n]} } : n \in DirNames }
+                    : c \in (Contents \cup {NoFile}) \ {s.dir[n]} } : n \in PlainNames }
     \cup UNION { { <<Op(IF c = NoFile THEN "wremove" ELSE IF s.wat[n] = NoFile THEN "wadd" ELSE "wedit", n, c), [s EXCEPT !.wat[n] = c]>>
                     : c \in (Contents \cup {NoFile}) \ {s.wat[n]} } : n \in WatNames }
-    \cup { <<Op("setenv", "", v), [s EXCEPT !.env = v]>> : v \in EnvVals \ {s.env} }
+    \cup { <<Op("setenv", "", v), [s EXCEPT !.env = v]>> : v \in EnvVals \ {s.env, Unset} }
 HApplies(s) == { <<Op("apply", "", o), s>> : o \in Outcomes }
 RECURSIVE Hists(_, _)
-Hists(s, n) ==    \* sequences of exactly <= n ops from s, ending with an apply (or empty)
+Hists(s, n) ==
     {<<>>} \cup
     (IF n = 0 THEN {}
      ELSE UNION { { <<x[1]>> \o h : h \in (IF x[1].op = "apply" THEN Hists(x[2], n - 1) ELSE Hists(x[2], n - 1) \ {<<>>}) }
                   : x \in HChanges(s) \cup HApplies(s) })
+
+(* (b) fault histories: the world starts with a plain file a and a file b that references the variable *)
+(* in the first directory (c absent) and one successful apply; then all sequences of length <=         *)
+(* FaultLen over: a added/removed, b added/removed, c (second directory) added/removed, the variable   *)
+(* unset/set again, apply - ending with an apply.  They contain every way of combining an apply that    *)
+(* fails part-way through a directory with additions and removals in the same cycle, and the recovery. *)
+FNames == {"a", "b"} \cup (IF TwoDirs THEN {"c"} ELSE {})
+FContent(n) == IF n = "b" THEN "e1" ELSE "p1"
+FPrefix == << Op("add", "a", "p1"), Op("add", "b", "e1"), Op("apply", "", "ok") >>
+(* second start: only b exists and the variable is already unset (no apply yet): reaches within FaultLen   *)
+(* "a is added, the apply fails after writing a's output, a is removed again, recovery"                   *)
+FPrefix2 == << Op("add", "b", "e1"), Op("unsetenv", "", "") >>
+FSteps(s) ==     \* s = [files |-> set of present names, set |-> BOOLEAN]
+    { <<Op(IF n \in s.files THEN "remove" ELSE "add", n, IF n \in s.files THEN NoFile ELSE FContent(n)),
+        [s EXCEPT !.files = IF n \in s.files THEN @ \ {n} ELSE @ \cup {n}]>> : n \in FNames }
+    \cup { <<IF s.set THEN Op("unsetenv", "", "") ELSE Op("setenv", "", HInit.env), [s EXCEPT !.set = ~@]>> }
+RECURSIVE FHists(_, _)
+FHists(s, n) ==
+    {<<>>} \cup
+    (IF n = 0 THEN {}
+     ELSE { <<Op("apply", "", "ok")>> \o h : h \in FHists(s, n - 1) }
+          \cup UNION { { <<x[1]>> \o h : h \in FHists(x[2], n - 1) \ {<<>>} } : x \in FSteps(s) })
+MaximalOnly(S, len) == { h \in S : Len(h) = len }      \* shorter histories are prefixes of these
+
 CasesFile == IF "VERIF_CASES" \in DOMAIN IOEnv THEN IOEnv.VERIF_CASES ELSE "cases.ndjson"
-CaseSeq == SetToSeq({ [cfg0 |-> HInit.cfg, env0 |-> HInit.env, ops |-> h] : h \in Hists(HInit, HistLen) \ {<<>>} })
+CaseSeq == SetToSeq(
+    { [cfg0 |-> HInit.cfg, env0 |-> HInit.env, tol |-> FALSE, ops |-> h] : h \in Hists(HInit, HistLen) \ {<<>>} }
+    \cup { [cfg0 |-> HInit.cfg, env0 |-> HInit.env, tol |-> t, ops |-> FPrefix \o h]
+           : h \in MaximalOnly(FHists([files |-> {"a", "b"}, set |-> TRUE], FaultLen), FaultLen), t \in TolVals }
+    \cup { [cfg0 |-> HInit.cfg, env0 |-> HInit.env, tol |-> t, ops |-> FPrefix2 \o h]
+           : h \in MaximalOnly(FHists([files |-> {"b"}, set |-> FALSE], FaultLen), FaultLen), t \in TolVals })
 ASSUME ndJsonSerialize(CasesFile, CaseSeq)
 =============================================================================
